@@ -25,6 +25,8 @@ async fn verif_grpc() {
     match scenario.as_str() {
         "push_attributes" => push_attributes().await,
         "streaming_bad_modify_after_ack" => streaming_bad_modify_after_ack().await,
+        "delete_releases_streaming_pull" => delete_releases(true).await,
+        "delete_releases_blocked_pull" => delete_releases(false).await,
         other => panic!("unknown scenario {}", other),
     }
 }
@@ -105,4 +107,66 @@ async fn streaming_bad_modify_after_ack() {
         .map(|m| String::from_utf8(m.message.as_ref().unwrap().data.clone()).unwrap()).collect();
     obs(json!({"scenario": "streaming_bad_modify_after_ack", "status": status, "delivered_first": first.received_messages.len(),
                "still_deliverable": texts}));
+}
+
+
+// C12: open a StreamingPull / a blocked Pull on an empty subscription, delete the subscription, and see whether the
+// consumer is released (NOT_FOUND / an error status) within 2 s.  The outcome depends on the server's randomised
+// select order and on task scheduling, so the scenario is repeated.
+async fn delete_releases(streaming: bool) {
+    let rounds = 60;
+    let mut hangs = 0;
+    let mut released = 0;
+    let mut statuses: Vec<String> = vec![];
+    for i in 0..rounds {
+        let mut server = TestHost::start().await.unwrap();
+        let topic_name = TopicName::new("test", &format!("topic{}", i));
+        server.create_topic_with_name(&topic_name).await;
+        let subscription_name = SubscriptionName::new("test", &format!("subscription{}", i));
+        server.create_subscription_with_name(&topic_name, &subscription_name).await;
+        if streaming {
+            let (_sender, mut inbound) = server.streaming_pull(&subscription_name).await;
+            tokio::time::sleep(Duration::from_millis(20)).await;
+            server.subscriber.delete_subscription(DeleteSubscriptionRequest { subscription: subscription_name.to_string() }).await.unwrap();
+            let r = tokio::time::timeout(Duration::from_secs(2), async {
+                loop {
+                    match inbound.message().await {
+                        Err(s) => break format!("{:?}", s.code()),
+                        Ok(None) => break "closed-without-status".to_string(),
+                        Ok(Some(_)) => continue,
+                    }
+                }
+            }).await;
+            match r {
+                Ok(st) => { released += 1; if !statuses.contains(&st) { statuses.push(st); } }
+                Err(_) => hangs += 1,
+            }
+        } else {
+            let mut client = server.subscriber.clone();
+            let name = subscription_name.to_string();
+            #[allow(deprecated)]
+            let mut pull = tokio::spawn(async move {
+                client.pull(PullRequest { subscription: name, max_messages: 10, return_immediately: false }).await
+            });
+            tokio::time::sleep(Duration::from_millis(20)).await;
+            server.subscriber.delete_subscription(DeleteSubscriptionRequest { subscription: subscription_name.to_string() }).await.unwrap();
+            let outcome = tokio::time::timeout(Duration::from_secs(2), &mut pull).await;
+            if outcome.is_err() {
+                pull.abort();
+            }
+            match outcome {
+                Ok(Ok(Err(s))) => { released += 1; let st = format!("{:?}", s.code()); if !statuses.contains(&st) { statuses.push(st); } }
+                Ok(Ok(Ok(resp))) => { released += 1; let st = format!("ok-{}", resp.get_ref().received_messages.len()); if !statuses.contains(&st) { statuses.push(st); } }
+                Ok(Err(_)) => { released += 1; }
+                Err(_) => hangs += 1,
+            }
+        }
+        if streaming {
+            server.dispose().await;
+        } else {
+            std::mem::forget(server); // a still-blocked Pull would make the graceful shutdown wait for it
+        }
+    }
+    obs(json!({"scenario": if streaming { "delete_releases_streaming_pull" } else { "delete_releases_blocked_pull" },
+               "rounds": rounds, "hangs": hangs, "released": released, "statuses": statuses}));
 }
